@@ -6,6 +6,8 @@
    any function assigns them.  Gen/ImportsSrc.v: updateImports sorts before it names. *)
 From Coq Require Import List String Arith Bool.
 Import ListNotations.
+From DV Require Import Proofs.PathOrderLaws.
+From Coq Require Import Sorted Permutation.
 From DV Require Import Proofs.GobuildProofs.
 From DV Require Import Model.Decision Gen.DecisionSrc Proofs.PathOrderProofs.
 From DV Require Import Model.Conc Proofs.ConcProofs Gen.Access Gen.ImportsSrc
@@ -114,6 +116,29 @@ Theorem C16_gobuild_resolver_source_computes_the_model :
     = Some (gobuild_spec hint fp_nil ctx_nil fails nilp).
 Proof. exact gobuild_source_is_model. Qed.
 
+(* packagePathOrderLess is a strict total order on import paths (irreflexive, transitive, total), so the
+   sorted arrangement of a duplicate-free list of paths is unique: ANY sorted rearrangement -- whatever
+   algorithm sort.Slice runs, which is neither stable nor specified -- is the model's sort_by, and the
+   result does not depend on the order in which the paths were collected (Go map iteration order) *)
+Theorem C16_path_order_is_a_strict_total_order :
+  (forall a, Model.Imports.path_less a a = false) /\
+  (forall a b c, Model.Imports.path_less a b = true -> Model.Imports.path_less b c = true -> Model.Imports.path_less a c = true) /\
+  (forall a b, a <> b -> Model.Imports.path_less a b = true \/ Model.Imports.path_less b a = true).
+Proof. exact (conj path_less_irrefl (conj path_less_trans path_less_total)). Qed.
+
+Theorem C16_any_sort_by_the_path_order_is_the_models : forall l l',
+  NoDup l -> Permutation l l' -> StronglySorted pl l' -> l' = Model.Imports.sort_by (fun p => p) l.
+Proof. exact any_sort_is_the_models. Qed.
+
+Theorem C16_sorted_paths_ignore_collection_order : forall l l',
+  NoDup l -> Permutation l l' -> Model.Imports.sort_by (fun p => p) l' = Model.Imports.sort_by (fun p => p) l.
+Proof. exact sort_by_ignores_collection_order. Qed.
+
+Example C16_path_order_laws_are_not_vacuous :
+  Model.Imports.sort_by (fun s => s) ["golang.org/x/b"; "fmt"; "a.b/c"; "os"]%string = ["fmt"; "os"; "a.b/c"; "golang.org/x/b"]%string /\
+  Model.Imports.sort_by (fun s => s) ["os"; "a.b/c"; "golang.org/x/b"; "fmt"]%string = ["fmt"; "os"; "a.b/c"; "golang.org/x/b"]%string.
+Proof. exact path_order_laws_nonvacuous. Qed.
+
 Print Assumptions C16_shared_resolver_accesses_hold_the_mutex.
 Print Assumptions C16_shared_state_is_the_per_file_cache.
 Print Assumptions C16_name_resolvers_are_pure_functions_of_their_map.
@@ -125,3 +150,6 @@ Print Assumptions C16_import_names_do_not_follow_map_order.
 Print Assumptions C16_path_order_source_computes_the_model.
 Print Assumptions C16_path_order_source_is_within_the_vocabulary.
 Print Assumptions C16_gobuild_resolver_source_computes_the_model.
+Print Assumptions C16_path_order_is_a_strict_total_order.
+Print Assumptions C16_any_sort_by_the_path_order_is_the_models.
+Print Assumptions C16_sorted_paths_ignore_collection_order.
